@@ -18,6 +18,10 @@ CONSTANTS
   CxxSize <- XSize
   CxxFixedId <- XFixedId
   CxxName <- XName
+  CxxClassK <- XClassK
+  CxxClassT <- XClassT
+  Vias = {}
+  MetaAsk = {}
   TraitsRegs = {}
   GenericPtr = "generic_ptr"
   BasicPtr = "basic_ptr"
